@@ -139,7 +139,7 @@ Definition guarded_triples (cs : list eq_case) : N :=
 (* ---- 2. hash tables ------------------------------------------------------------------------------ *)
 Record ht_case := mk_ht_case {
   hc_test : N;                  (* what hash-table-test reported: 0 eq, 1 eql, 2 equal, 3 equalp *)
-  hc_pool : list ref;
+  hc_pool : list tkey;
   hc_tobs : list (list N);      (* the reported test applied by the implementation to every ordered pair of pool keys *)
   hc_ops : list hop;
   hc_obs : list hobs
@@ -166,20 +166,34 @@ Definition hobs_eqb (a b : hobs) : bool :=
 Definition ht_agree (c : ht_case) : bool :=
   all2 hobs_eqb (t_run (hc_pool c) [] (hc_ops c)) (hc_obs c) &&
   (* the model's test on the pool is the implementation's *)
-  all2 (all2 N.eqb) (map (fun a => map (fun b => b2n (test_fn (hc_test c) a b)) (hc_pool c)) (hc_pool c)) (hc_tobs c).
-(* the guard on which the observed behaviour is JUDGED: keys of the simple kinds (lists included: the table
-   must refuse them with a type-error), references consistent (one cell one value; nil and t one word each),
-   operations in range.  By simple_pool_ok (Proofs6) such a
+  all2 (all2 N.eqb) (map (fun a => map (fun b => b2n (key_test (hc_test c) a b)) (hc_pool c)) (hc_pool c)) (hc_tobs c).
+(* the guard on which the observed behaviour is JUDGED (formerly: keys of the simple kinds; now the guard of the
+   refinement theorem itself).  By simple_pool_ok (Proofs6) such a
    pool satisfies pool_ok for eql, so the unchanged code is a finite map there by table_refines_map. *)
 Definition const_wordsb (a b : ref) : bool :=
   match r_obj a, r_obj b with
   | Nil, Nil | Tru, Tru => N.eqb (r_word a) (r_word b)
   | _, _ => true
   end.
+(* the references among the keys; byte keys: one pointer, one number *)
+Definition key_refs (pool : list tkey) : list ref := flat_map (fun k => match k with TRef r => [r] | TByt _ _ _ => [] end) pool.
+Definition byt_consistentb (a b : tkey) : bool :=
+  match a, b with
+  | TByt u v w, TByt u' v' w' => negb (N.eqb w w') || (Bool.eqb u u' && Z.eqb v v')
+  | _, _ => true
+  end.
+Definition keys_consistent (pool : list tkey) : bool :=
+  forallb (fun a => forallb (fun b => consistentb a b && const_wordsb a b) (key_refs pool)) (key_refs pool) &&
+  forallb (fun a => forallb (byt_consistentb a) pool) pool.
+(* the guard is the guard of C16_table_refines_map itself, evaluated with the MODEL's eql on the pool (the
+   reported test is always eql): by that theorem the unchanged code is the finite map there.  Pools of simple keys
+   are inside it by C16_simple_pool_ok; pools with signed-byte / unsigned-byte keys when no two keys of different
+   Go types are eql. *)
 Definition ht_guard (c : ht_case) : bool :=
-  simple_pool (hc_pool c) &&
-  forallb (fun a => forallb (fun b => consistentb a b && const_wordsb a b) (hc_pool c)) (hc_pool c) &&
+  N.eqb (hc_test c) 1 && pool_ok (hc_pool c) (pool_test 1 (hc_pool c)) &&
+  keys_consistent (hc_pool c) &&
   forallb (op_in_range (List.length (hc_pool c))) (hc_ops c).
+Definition all_refs (pool : list tkey) : bool := forallb (fun k => match k with TRef _ => true | _ => false end) pool.
 (* the observed test as a relation on pool indices *)
 Definition tobs_rel (c : ht_case) (i j : nat) : bool := N.eqb (nth j (nth i (hc_tobs c) []) 2%N) 1.
 (* the observed behaviour is that of the finite map under the test AS THE IMPLEMENTATION ANSWERS IT *)
@@ -192,8 +206,12 @@ Definition ht_mismatches (cs : list ht_case) : N := N.of_nat (List.length (check
 Definition ht_guarded (cs : list ht_case) : N := N.of_nat (List.length (filter ht_guard cs)).
 Definition ht_spec_violations (cs : list ht_case) : N := N.of_nat (List.length (filter (fun c => negb (ht_spec_ok c)) cs)).
 (* self-check of the guard theorem on the run's pools: a guarded pool satisfies pool_ok for eql *)
+(* self-check of C16_simple_pool_ok on the run's pools: a consistent pool of simple keys satisfies pool_ok *)
 Definition ht_guard_implies_pool_ok (cs : list ht_case) : N :=
-  N.of_nat (List.length (filter (fun c => ht_guard c && N.eqb (hc_test c) 1 && negb (pool_ok (hc_pool c) (pool_test 1 (hc_pool c)))) cs)).
+  N.of_nat (List.length (filter (fun c => all_refs (hc_pool c) && simple_pool (key_refs (hc_pool c)) && keys_consistent (hc_pool c) &&
+                                           negb (pool_ok (hc_pool c) (pool_test 1 (hc_pool c)))) cs)).
+Definition ht_byte_pools_guarded (cs : list ht_case) : N :=
+  N.of_nat (List.length (filter (fun c => ht_guard c && negb (all_refs (hc_pool c))) cs)).
 
 (* ---- 3. types ------------------------------------------------------------------------------------ *)
 Inductive ty_case :=
